@@ -57,6 +57,12 @@ func init() {
 		},
 		vrp + "Ite64": func(fr *frame, a []value) value { return fr.i.iteValue(a[0], a[1], a[2]) },
 		vrp + "Register": func(fr *frame, a []value) value { return nil },
+		// ContentByte(tag, off): byte off of the (arbitrary) content named tag —
+		// an uninterpreted function of the offset
+		vrp + "ContentByte": func(fr *frame, a []value) value {
+			ts := fr.i.ts()
+			return mkval(ts.UF("content_"+sanitize(a[0].(string)), bvSort(8), fr.i.term(a[1])), types.Uint8)
+		},
 
 		// ---- repo logging: no-ops (M-LOGGER)
 		stslog + "Debug": nop, stslog + "Info": nop, stslog + "Error": nop,
